@@ -27,7 +27,9 @@ def main():
             assert rc == 0, o
         rc, o = sh('python3 %s' % edit, cwd='/repo')
         assert rc == 0, o
+        sh('git -C /repo add -N -- src')
         rc, diff = sh('git -C /repo diff -- src')
+        sh('git -C /repo reset -q -- src')
         open(os.path.join(d, 'patch.diff'), 'w').write(diff)
         rc, out = sh('cargo test --offline --lib 2>&1 | tail -4; cargo build --offline --features borsh 2>&1 | tail -1', cwd='/repo')
         m = re.search(r'test result: (\w+)\. (\d+) passed; (\d+) failed', out)
@@ -39,7 +41,7 @@ def main():
             rc, o = sh('./check %s' % p, cwd=V)
             res[p] = {'exit': rc, 'findings': [l[:300] for l in o.splitlines() if l.startswith('FINDING')][:5]}
     finally:
-        sh('git -C /repo checkout -- .')
+        sh('git -C /repo checkout -- . && git -C /repo clean -fdq -- src')
         sh('rm -rf /tmp/twin-target')
     fired = [p for p, r in res.items() if r['exit'] != 0]
     meta = {'id': rid, 'origin': 'written by hand' + ('' if seed == '-' else ' as the behaviour-preserving twin of seeded/%s' % seed), 'tests_pass': tests_ok,
